@@ -1670,6 +1670,10 @@ func (e *Engine) selectOp(st *State, fr *Frame, x *ssa.Select) Value {
 // vSharedEnd every write to an object that existed at vSharedBegin, made outside a sync.Once
 // body and without a held mutex, is a data race between two concurrent calls of the method.
 func (e *Engine) recordAccess(st *State, p Ptr, write bool) {
+	if st.released[p.Obj] && st.sharedMax != 0 {
+		e.sharedWrite(st, p.Obj, "use of an object after it was handed back to a sync.Pool")
+		return
+	}
 	if !write || st.sharedMax == 0 || p.Obj == 0 || !st.isShared(p.Obj) || st.onceDepth > 0 || st.lockDepth > 0 {
 		return
 	}
